@@ -107,6 +107,7 @@ class PathMgr:
         self.pc_axiom: List[bool] = []
         self.alloc_cls: Dict[int, ClassInfo] = {}
         self.bounded: set = set()
+        self.sub_bases: List[int] = []
         self.hint_alt: Dict[int, List[ClassInfo]] = {}
         self.merged_dicts: Dict[int, Any] = {}
         self.canon_map: Dict[int, Any] = {}
@@ -401,6 +402,7 @@ class PathMgr:
         keep_st = None
         seen_ax: set = set()
         self.sub_depth += 1
+        self.sub_bases.append(base)
         try:
             while sub_pending:
                 dec = sub_pending.pop()
@@ -445,6 +447,7 @@ class PathMgr:
                     del self.writes[saved[12]:]
         finally:
             self.sub_depth -= 1
+            self.sub_bases.pop()
             self.decisions, self.pos, self.pending = saved[0], saved[1], saved[2]
         return results
 
